@@ -296,13 +296,21 @@ pub fn gen_mb(rng: &mut Rng, cfg: &GenCfg, ptype: PType, v1: bool, q: &mut u8) -
         }
     }
     let blocks = (0..6).map(|_| gen_block(rng, cfg, intra, v1, *q, None)).collect();
-    let stuffing = if (rng.below(16) as u8) < cfg.stuff16 { 1 + rng.below(2) as u8 } else { 0 };
+    let stuffing = if (rng.below(16) as u8) < cfg.stuff16 {
+        if rng.chance(1, 24) {
+            3 + rng.below(30) as u8 // a long run of stuffing codewords
+        } else {
+            1 + rng.below(2) as u8
+        }
+    } else {
+        0
+    };
     MbSpec::Coded { kind, dquant, mvd, blocks, stuffing }
 }
 
 pub fn gen_pei(rng: &mut Rng, cfg: &GenCfg) -> Vec<u8> {
     if (rng.below(16) as u8) < cfg.pei16 {
-        let n = 1 + rng.below(3) as usize;
+        let n = if rng.chance(1, 24) { 4 + rng.below(60) as usize } else { 1 + rng.below(3) as usize };
         rng.bytes(n)
     } else {
         Vec::new()
